@@ -258,6 +258,20 @@ func execMore(op string, a []string) (string, bool) {
 		return showDec(string(unhx(a[1])), netOf(a[0])), true
 	case "xtr":
 		return showXtr(unhx(a[1]), netOf(a[0])), true
+	case "pks":
+		ps, err := txscript.ParsePkScript(unhx(a[1]))
+		if err != nil {
+			if err == txscript.ErrUnsupportedScriptType {
+				return "err:unsupported", true
+			}
+			return "err", true
+		}
+		ad, err := ps.Address(netOf(a[0]))
+		as := "noaddr"
+		if err == nil {
+			as = ad.String()
+		}
+		return "ok " + ps.Class().String() + " " + hx(ps.Script()) + " " + as, true
 	case "enc":
 		net := netOf(a[1])
 		ad, err := mkAddr(a[0], net, unhx(a[2]))
@@ -485,6 +499,23 @@ func genAddr(g *core.Gen) {
 			}
 		}
 	}
+	// every segwit kind on every network: the valid string in upper case and lower case, decoded under every network
+	for _, n := range ns {
+		for _, kind := range []string{"wpkh", "wsh", "tr", "p2a"} {
+			l := map[string]int{"wpkh": 20, "wsh": 32, "tr": 32, "p2a": 0}[kind]
+			ad, err := mkAddr(kind, n.p, r.Bytes(l))
+			if err != nil {
+				continue
+			}
+			str := []byte(ad.String())
+			other := ns[r.Intn(len(ns))]
+			g.Case("dec-valid-upper", true, "C16 dec "+other.name+" "+hx(upper(str)))
+			g.Case("dec-valid-lower", true, "C16 dec "+other.name+" "+hx(str))
+			mixed := append([]byte{}, str...)
+			mixed[0] -= 32
+			g.Case("dec-valid-mixed", true, "C16 dec "+other.name+" "+hx(mixed))
+		}
+	}
 	// pay-to-anchor look-alikes: v1 two-byte programs next to 4e73, and 4e73 under other versions / variants
 	for _, prog := range [][]byte{{0x4e, 0x73}, {0x4e, 0x74}, {0x4f, 0x73}, {0x4e, 0x00}, {0x73, 0x4e}, {0x4e}, {0x4e, 0x73, 0x00}} {
 		for ver := 0; ver <= 2; ver++ {
@@ -619,6 +650,9 @@ func genScripts(g *core.Gen) {
 		s := tmpl()
 		n := ns[r.Intn(len(ns))]
 		g.Case("xtr-template", true, "C16 xtr "+n.name+" "+hx(s))
+		if r.Chance(1, 2) {
+			g.Case("pks", true, "C16 pks "+n.name+" "+hx(s))
+		}
 		if r.Chance(1, 2) { // near misses: flip / truncate / extend
 			t := append([]byte{}, s...)
 			switch r.Intn(3) {
